@@ -228,8 +228,25 @@ def deep_builder():
     try:
         Builder().store_ref(c).end_cell()
     except Exception:
-        return "ok"
-    return "a cell of depth 1024 was produced"
+        pass
+    else:
+        return "a cell of depth 1024 was produced"
+    # the same limit when the depth comes from a pruned branch's recorded depth (every level counts, not only the top one)
+    import cells
+    for mask in (1, 2, 3, 5, 7):
+        n = bin(mask).count("1")
+        for d, must_fit in ((1022, True), (1023, False), (5000, False)):
+            pb = cells.build_py([cells.pruned_node(mask, [bytes([i + 1]) * 32 for i in range(n)], [d] + [3] * (n - 1))])[-1]
+            try:
+                parent = Builder().store_uint(1, 1).store_ref(pb).end_cell()
+                depths = [parent.get_depth(l) for l in range(4)]
+            except Exception:
+                if must_fit:
+                    return f"a cell over a pruned branch (mask {mask}) recording depth {d} was refused although it fits"
+                continue
+            if max(depths) > 1023:
+                return f"a cell of depth {max(depths)} was produced over a pruned branch (mask {mask}) recording depth {d}"
+    return "ok"
 
 
 def replay(ctx, obj):
